@@ -1,8 +1,8 @@
 (* GenEq/Fb_read_frame.v — tie T1: the definition regenerated from /repo (Gen/FbGen.v, untracked, rebuilt on every run by rs2v + vlib/translate.py)
    equals the model definition the theorems are about. *)
-From FB Require Import Sem.Base Model.Fb GenEq.Tac.
+From FB Require Import Sem.Base Model.Fb Facets.Fb GenEq.Tac.
 From FB Require Gen.FbGen.
 Open Scope Z_scope.
 
-Lemma gen_eq : forall chk RS (R : Reader RS) df w, FbGen.read_frame_body chk R df w = Fb.read_frame_body chk R df w.
+Lemma gen_eq : forall SIZE chk RS (R : Reader RS) df w, Inv SIZE (fst w) -> FbGen.read_frame_body SIZE chk R df w = Fb.read_frame_body chk R df w.
 Proof. gen_eq. Qed.
